@@ -390,6 +390,8 @@ def random_history(rng, src, length, kinds):
                 op['path'] = path_of(soup, c)
                 if k == 'replace':
                     op['ms'] = rng.choice(mats)
+        if k in ('remove', 'replace') and op['path'] is not None and op['ppath'] is not None and op['path'][:-1] != op['ppath']:
+            op['path'] = None       # the parent's views list a child that the tree holds somewhere else (one expression at two places)
         if op['path'] is None or op['ppath'] is None:
             # a view handed out a node that is not (any more) in the tree: the views are not consistent with the tree
             if h:
@@ -398,8 +400,16 @@ def random_history(rng, src, length, kinds):
                 return {'i': to_atoms(src), 'h': [], 'stale': True}
             break
         err = apply_op(soup, op)
-        o = observe(soup) if not err else {'t': to_atoms('<' + err + '>'), 'cnt': [], 'tv': [], 'ds': []}
-        h.append({'op': op, 't': o['t'], 'cnt': o['cnt'], 'tv': o['tv'], 'ds': o['ds'], 'err': err, 'cons': consistency(soup) if not err else []})
+        cons = []
+        if not err:
+            try:            # looking at the edited tree must not fail either
+                o = observe(soup)
+                cons = consistency(soup)
+            except Exception as e:   # noqa
+                err = 'exc:views:' + type(e).__name__
+        if err:
+            o = {'t': to_atoms('<' + err + '>'), 'cnt': [], 'tv': [], 'ds': []}
+        h.append({'op': op, 't': o['t'], 'cnt': o['cnt'], 'tv': o['tv'], 'ds': o['ds'], 'err': err, 'cons': cons})
         if err:
             break
     return {'i': to_atoms(src), 'h': h}
